@@ -24,8 +24,13 @@ def run(rep, drv):
 	rep.rule = ('random h, p, K, lambda, L: r_q_cost_poisson on windows of integer (r,Q) and r_q_poisson_exact vs the exact model on the same G/cdf tables + exhaustive '
 				'integer window; normal-demand r_q_cost vs independent quadrature; r(Q) equalises g(r), g(r+Q) and minimises over r; approximations satisfy their defining '
 				'equations. non-trivial = Q >= 2')
+	# operation histories: the same item evaluated for several lead times in one process (sensitivity study), then fresh items
+	items = []
 	for k in range(400 if th else 60):
-		h = rng.choice([0.5, 1, 2, 3]); p = rng.choice([4, 9, 18, 36]); K = rng.choice([2, 8, 20, 64]); lam = rng.choice([0.5, 1.5, 3, 6]); L = rng.choice([1, 2, 0.5])
+		if k % 3 == 0 or not items:
+			items.append((rng.choice([0.5, 1, 2, 3]), rng.choice([4, 9, 18, 36]), rng.choice([2, 8, 20, 64]), rng.choice([0.5, 1.5, 3, 6])))
+		h, p, K, lam = items[-1]
+		L = [2, 4, 1, 0.5][k % 3] if k % 3 else rng.choice([1, 2, 0.5])
 		mu = lam * L
 		hi = int(poisson.ppf(1 - 1e-12, mu)) + 60
 		lo = -10
